@@ -85,6 +85,9 @@ type Result struct {
 	Stuck string
 }
 
+// stuckTimer: the one watchdog timer (only one execution is active at a time).
+var stuckTimer *time.Timer
+
 // StuckTimeout bounds how long one step of one thread may take in real time (generous: steps take microseconds).
 var StuckTimeout = 90 * time.Second
 
@@ -330,9 +333,21 @@ func (x *Exec) loop() {
 		running = t
 		x.cur = t
 		t.wake <- true
+		// one timer per execution, re-armed for every step (a time.After per step would keep millions of timers alive)
+		if stuckTimer == nil {
+			stuckTimer = time.NewTimer(StuckTimeout)
+		} else {
+			stuckTimer.Reset(StuckTimeout)
+		}
 		select {
 		case <-x.parked:
-		case <-time.After(StuckTimeout):
+			if !stuckTimer.Stop() {
+				select {
+				case <-stuckTimer.C:
+				default:
+				}
+			}
+		case <-stuckTimer.C:
 			// nothing after this could be trusted (a goroutine of this execution is still alive and may wake up inside
 			// the next one): stop the process with a harness error - not a verdict about the property
 			defer func() {
